@@ -1,40 +1,43 @@
 (* Model/Fragment.v — a fragment of well-formed Delphi as token sequences (as the lexer produces them:
    no comments, no directives, one pass), with the logical lines the parser is expected to produce.
-     stmts ::= ε | Identifier `;` stmts | Identifier `:=` Identifier `;` stmts | `begin` stmts `end` `;` stmts
-             | `repeat` stmts `until` Identifier `;` stmts | `try` stmts `finally` stmts `end` `;` stmts
-             | `try` stmts `except` stmts `end` `;` stmts
-             | `if` Identifier `then` body `;` stmts | `if` Identifier `then` body `else` body `;` stmts
-             | `while` Identifier `do` body `;` stmts
-             | `case` Identifier `of` arms `end` `;` stmts | `case` Identifier `of` arms `else` stmts `end` `;` stmts
-     arms  ::= ε | Identifier `:` body `;` arms
-     body  ::= Identifier | Identifier `:=` Identifier | `begin` stmts `end`
+     stmt  ::= Identifier | Identifier `:=` Identifier | `begin` stmts `end` | `repeat` stmts `until` Identifier
+             | `try` stmts `finally` stmts `end` | `try` stmts `except` stmts `end` | `try` stmts `except` handlers `end`
+             | `if` Identifier `then` stmt | `if` Identifier `then` stmt `else` stmt | `while` Identifier `do` stmt
+             | `case` Identifier `of` arms `end` | `case` Identifier `of` arms `else` stmts `end`
+     stmts ::= ε | stmt `;` stmts
+     arms  ::= ε | Identifier `:` stmt `;` arms
+     handlers ::= ε | `on` Identifier `:` Identifier `do` stmt `;` handlers      (`on` is lexed as IdentifierOrKeyword)
      prog  ::= `begin` stmts `end` `.` Eof
+   (`wf`: the then-branch of an if-then-else must not end in an if without else — otherwise the tokens are
+   those of a different program.)
    The expected lines are given at the level of one pass (`pexpected`: with the empty lines the parser
    leaves behind and with parents as pass-line indices) and finalised as parse_file does (`finalize`:
    empty lines dropped, parents renumbered). *)
 From PasfmtVerif Require Export Model.ParserGrammar.
 Local Open Scope nat_scope.
 
-Inductive stmts : Set :=
-  | SNil
-  | SSimple (rest : stmts)                 (* Identifier ; *)
-  | SAssign (rest : stmts)                 (* Identifier := Identifier ; *)
-  | SBlock (body rest : stmts)             (* begin body end ; *)
-  | SRepeat (body rest : stmts)            (* repeat body until Identifier ; *)
-  | STry (body fin rest : stmts)           (* try body finally fin end ; *)
-  | STryExcept (body exc rest : stmts)     (* try body except exc end ; *)
-  | SIf (c : tbody) (rest : stmts)         (* if Identifier then c ; *)
-  | SIfElse (c1 c2 : tbody) (rest : stmts) (* if Identifier then c1 else c2 ; *)
-  | SWhile (c : tbody) (rest : stmts)      (* while Identifier do c ; *)
-  | SCase (a : arms) (rest : stmts)        (* case Identifier of a end ; *)
-  | SCaseElse (a : arms) (e rest : stmts)  (* case Identifier of a else e end ; *)
-with tbody : Set :=
+Inductive stmt : Set :=
   | TSimple                                (* Identifier *)
   | TAssign                                (* Identifier := Identifier *)
   | TBlock (b : stmts)                     (* begin b end *)
+  | TRepeat (b : stmts)                    (* repeat b until Identifier *)
+  | TTry (b c : stmts)                     (* try b finally c end *)
+  | TTryExcept (b c : stmts)               (* try b except c end *)
+  | TTryOn (b : stmts) (h : handlers)      (* try b except h end *)
+  | TIf (c : stmt)                         (* if Identifier then c *)
+  | TIfElse (c1 c2 : stmt)                 (* if Identifier then c1 else c2 *)
+  | TWhile (c : stmt)                      (* while Identifier do c *)
+  | TCase (a : arms)                       (* case Identifier of a end *)
+  | TCaseElse (a : arms) (e : stmts)       (* case Identifier of a else e end *)
+with stmts : Set :=
+  | SNil
+  | SCons (c : stmt) (rest : stmts)        (* c ; rest *)
 with arms : Set :=
   | ANil
-  | ACons (c : tbody) (rest : arms).       (* Identifier : c ; *)
+  | ACons (c : stmt) (rest : arms)         (* Identifier : c ; rest *)
+with handlers : Set :=
+  | HNil
+  | HCons (c : stmt) (rest : handlers).    (* on Identifier : Identifier do c ; rest *)
 
 Definition tI := RTT_Identifier.
 Definition tSemi := RTT_Op OK_Semicolon.
@@ -55,106 +58,141 @@ Definition tDo := RTT_Keyword KK_Do.
 Definition tCase := RTT_Keyword KK_Case.
 Definition tOf := RTT_Keyword KK_Of.
 Definition tColon := RTT_Op OK_Colon.
+Definition tOn := RTT_IdentifierOrKeyword KK_On.
+(* the final type of a token: the parser re-types contextual keywords in keyword position *)
+Definition tVar := RTT_Keyword (KK_Var DK_Other).
+Definition tConst := RTT_Keyword (KK_Const DK_Other).
+Definition tEq := RTT_Op (OK_Equal EK_Comp).
+Definition retype (t : RawTokenType) : RawTokenType :=
+  match t with
+  | RTT_IdentifierOrKeyword KK_On => RTT_Keyword KK_On
+  | RTT_Keyword (KK_Var DK_Other) => RTT_Keyword (KK_Var DK_Section)       (* the keyword of a var section *)
+  | RTT_Keyword (KK_Const DK_Other) => RTT_Keyword (KK_Const DK_Section)
+  | RTT_Op (OK_Equal EK_Comp) => RTT_Op (OK_Equal EK_Decl)                 (* the `=` of a constant declaration *)
+  | _ => t
+  end.
 
-Fixpoint render (ss : stmts) : list RawTokenType :=
-  match ss with
-  | SNil => []
-  | SSimple r => tI :: tSemi :: render r
-  | SAssign r => tI :: tAssign :: tI :: tSemi :: render r
-  | SBlock b r => tBegin :: render b ++ tEnd :: tSemi :: render r
-  | SRepeat b r => tRepeat :: render b ++ tUntil :: tI :: tSemi :: render r
-  | STry b c r => tTry :: render b ++ tFinally :: render c ++ tEnd :: tSemi :: render r
-  | STryExcept b c r => tTry :: render b ++ tExcept :: render c ++ tEnd :: tSemi :: render r
-  | SIf c r => tIf :: tI :: tThen :: render_body c ++ tSemi :: render r
-  | SIfElse c1 c2 r => tIf :: tI :: tThen :: render_body c1 ++ tElse :: render_body c2 ++ tSemi :: render r
-  | SWhile c r => tWhile :: tI :: tDo :: render_body c ++ tSemi :: render r
-  | SCase a r => tCase :: tI :: tOf :: render_arms a ++ tEnd :: tSemi :: render r
-  | SCaseElse a e r => tCase :: tI :: tOf :: render_arms a ++ tElse :: render e ++ tEnd :: tSemi :: render r
-  end
-with render_body (c : tbody) : list RawTokenType :=
+Fixpoint render_stmt (c : stmt) : list RawTokenType :=
   match c with
   | TSimple => [tI]
   | TAssign => [tI; tAssign; tI]
   | TBlock b => tBegin :: render b ++ [tEnd]
+  | TRepeat b => tRepeat :: render b ++ [tUntil; tI]
+  | TTry b c => tTry :: render b ++ tFinally :: render c ++ [tEnd]
+  | TTryExcept b c => tTry :: render b ++ tExcept :: render c ++ [tEnd]
+  | TTryOn b h => tTry :: render b ++ tExcept :: render_handlers h ++ [tEnd]
+  | TIf c => tIf :: tI :: tThen :: render_stmt c
+  | TIfElse c1 c2 => tIf :: tI :: tThen :: render_stmt c1 ++ tElse :: render_stmt c2
+  | TWhile c => tWhile :: tI :: tDo :: render_stmt c
+  | TCase a => tCase :: tI :: tOf :: render_arms a ++ [tEnd]
+  | TCaseElse a e => tCase :: tI :: tOf :: render_arms a ++ tElse :: render e ++ [tEnd]
+  end
+with render (ss : stmts) : list RawTokenType :=
+  match ss with
+  | SNil => []
+  | SCons c r => render_stmt c ++ tSemi :: render r
   end
 with render_arms (a : arms) : list RawTokenType :=
   match a with
   | ANil => []
-  | ACons c r => tI :: tColon :: render_body c ++ tSemi :: render_arms r
+  | ACons c r => tI :: tColon :: render_stmt c ++ tSemi :: render_arms r
+  end
+with render_handlers (h : handlers) : list RawTokenType :=
+  match h with
+  | HNil => []
+  | HCons c r => tOn :: tI :: tColon :: tI :: tDo :: render_stmt c ++ tSemi :: render_handlers r
   end.
 Definition render_prog (ss : stmts) : list RawTokenType := tBegin :: render ss ++ [tEnd; tDot; RTT_Eof].
 
+(* a statement that cannot take a following `else` for itself *)
+Fixpoint closed (c : stmt) : bool :=
+  match c with
+  | TIf _ => false
+  | TIfElse _ c2 => closed c2
+  | TWhile c => closed c
+  | _ => true
+  end.
+Fixpoint wf_stmt (c : stmt) : bool :=
+  match c with
+  | TSimple | TAssign => true
+  | TBlock b | TRepeat b => wf b
+  | TTry b c | TTryExcept b c => wf b && wf c
+  | TTryOn b h => wf b && wf_handlers h
+  | TIf c | TWhile c => wf_stmt c
+  | TIfElse c1 c2 => closed c1 && wf_stmt c1 && wf_stmt c2
+  | TCase a => wf_arms a
+  | TCaseElse a e => wf_arms a && wf e
+  end
+with wf (ss : stmts) : bool :=
+  match ss with SNil => true | SCons c r => wf_stmt c && wf r end
+with wf_arms (a : arms) : bool :=
+  match a with ANil => true | ACons c r => wf_stmt c && wf_arms r end
+with wf_handlers (h : handlers) : bool :=
+  match h with HNil => true | HCons c r => wf_stmt c && wf_handlers r end.
+
 (* the level of a line at nesting depth d (the parser clamps to u16) *)
 Definition lvl (d : Z) : N := clamp_u16 d.
-Definition seqn (k m : nat) : list nat := seq k m.
+(* the empty line the parser leaves behind after the child lines of a body *)
+Definition stray : lline := mkLine LLT_Unknown (lvl 1) None [].
 
-(* The lines of one pass for a statement list whose first token has index k and whose first line has
-   index li, at depth d, inside the child line context `par` (None = not inside a child line).
-   `semi` (for bodies): the index of the `;` that take_separators_on_last_line appends to the last line
-   of the body, if any. *)
-Fixpoint pexpected (par : option (nat * nat)) (d : Z) (k li : nat) (ss : stmts) : list lline :=
-  match ss with
-  | SNil => []
-  | SSimple r => mkLine LLT_Unknown (lvl d) par [k; k + 1] :: pexpected par d (k + 2) (li + 1) r
-  | SAssign r => mkLine LLT_Assignment (lvl d) par [k; k + 1; k + 2; k + 3] :: pexpected par d (k + 4) (li + 1) r
-  | SBlock b r =>
+(* The lines of one pass.
+   sexpected par d k li sm c: the statement c from token k on, its first line having index li, at depth d,
+   inside the child line context `par` (None = not inside a child line); sm = the index of the `;` that
+   ends the statement (it joins the last line of the statement), or nothing.
+   A body of if/while/case-arm is a child line context: its lines have parent (header line, then/else/do/
+   colon token), count their levels from 1, and are followed by one empty line. *)
+Fixpoint sexpected (par : option (nat * nat)) (d : Z) (k li : nat) (sm : list nat) (c : stmt) : list lline :=
+  match c with
+  | TSimple => [mkLine LLT_Unknown (lvl d) par (k :: sm)]
+  | TAssign => [mkLine LLT_Assignment (lvl d) par ([k; k + 1; k + 2] ++ sm)]
+  | TBlock b =>
       let lb := pexpected par (d + 1) (k + 1) (li + 1) b in
       let e := k + 1 + length (render b) in
-      mkLine LLT_Unknown (lvl d) par [k] :: lb
-      ++ mkLine LLT_Unknown (lvl d) par [e; e + 1] :: pexpected par d (e + 2) (li + 1 + length lb + 1) r
-  | SRepeat b r =>
+      mkLine LLT_Unknown (lvl d) par [k] :: lb ++ [mkLine LLT_Unknown (lvl d) par (e :: sm)]
+  | TRepeat b =>
       let lb := pexpected par (d + 1) (k + 1) (li + 1) b in
       let e := k + 1 + length (render b) in
-      mkLine LLT_Unknown (lvl d) par [k] :: lb
-      ++ mkLine LLT_Unknown (lvl d) par [e; e + 1; e + 2] :: pexpected par d (e + 3) (li + 1 + length lb + 1) r
-  | STry b c r | STryExcept b c r =>
+      mkLine LLT_Unknown (lvl d) par [k] :: lb ++ [mkLine LLT_Unknown (lvl d) par ([e; e + 1] ++ sm)]
+  | TTry b c | TTryExcept b c =>
       let lb := pexpected par (d + 1) (k + 1) (li + 1) b in
       let m := k + 1 + length (render b) in
       let lc := pexpected par (d + 1) (m + 1) (li + 1 + length lb + 1) c in
       let e := m + 1 + length (render c) in
-      mkLine LLT_Unknown (lvl d) par [k] :: lb
-      ++ mkLine LLT_Unknown (lvl d) par [m] :: lc
-      ++ mkLine LLT_Unknown (lvl d) par [e; e + 1] :: pexpected par d (e + 2) (li + 1 + length lb + 1 + length lc + 1) r
-  | SIf c r =>
-      (* header line li = [if x then], finished after its child lines *)
-      let e := k + 3 + length (render_body c) in                      (* the `;` *)
-      let lc := pexpected_body (Some (li, k + 2)) (k + 3) (li + 1) (Some e) c in
-      mkLine LLT_Unknown (lvl d) par [k; k + 1; k + 2] :: lc ++ pexpected par d (e + 1) (li + 1 + length lc) r
-  | SIfElse c1 c2 r =>
-      let el := k + 3 + length (render_body c1) in                    (* the `else` *)
-      let e := el + 1 + length (render_body c2) in                    (* the `;` *)
-      let l1 := pexpected_body (Some (li, k + 2)) (k + 3) (li + 1) None c1 in
-      let l2 := pexpected_body (Some (li, el)) (el + 1) (li + 1 + length l1) (Some e) c2 in
-      mkLine LLT_Unknown (lvl d) par [k; k + 1; k + 2; el] :: l1 ++ l2 ++ pexpected par d (e + 1) (li + 1 + length l1 + length l2) r
-  | SWhile c r =>
-      let e := k + 3 + length (render_body c) in
-      let lc := pexpected_body (Some (li, k + 2)) (k + 3) (li + 1) (Some e) c in
-      mkLine LLT_Unknown (lvl d) par [k; k + 1; k + 2] :: lc ++ pexpected par d (e + 1) (li + 1 + length lc) r
-  | SCase a r =>
-      (* header line [case x of]; then the arms (see arms_lines); `end ;` makes one line at the level of the header *)
+      mkLine LLT_Unknown (lvl d) par [k] :: lb ++ mkLine LLT_Unknown (lvl d) par [m] :: lc
+      ++ [mkLine LLT_Unknown (lvl d) par (e :: sm)]
+  | TTryOn b h =>
+      let lb := pexpected par (d + 1) (k + 1) (li + 1) b in
+      let m := k + 1 + length (render b) in
+      let lh := hexpected par (d + 1) (m + 1) (li + 1 + length lb + 1) h in
+      let e := m + 1 + length (render_handlers h) in
+      mkLine LLT_Unknown (lvl d) par [k] :: lb ++ mkLine LLT_Unknown (lvl d) par [m] :: lh
+      ++ [mkLine LLT_Unknown (lvl d) par (e :: sm)]
+  | TIf c | TWhile c =>
+      mkLine LLT_Unknown (lvl d) par [k; k + 1; k + 2] :: sexpected (Some (li, k + 2)) 1 (k + 3) (li + 1) sm c ++ [stray]
+  | TIfElse c1 c2 =>
+      let el := k + 3 + length (render_stmt c1) in
+      let l1 := sexpected (Some (li, k + 2)) 1 (k + 3) (li + 1) [] c1 ++ [stray] in
+      mkLine LLT_Unknown (lvl d) par [k; k + 1; k + 2; el] :: l1
+      ++ sexpected (Some (li, el)) 1 (el + 1) (li + 1 + length l1) sm c2 ++ [stray]
+  | TCase a =>
       mkLine LLT_CaseHeader (lvl d) par [k; k + 1; k + 2]
       :: arms_lines par d (k + 3) (li + 1) a (fun _ => [])
-           (fun k' li' pl => mkLine LLT_Unknown (lvl d) par [k'; k' + 1] :: pl ++ pexpected par d (k' + 2) (li' + 1 + length pl) r)
-  | SCaseElse a e r =>
+           (fun k' li' pl => mkLine LLT_Unknown (lvl d) par (k' :: sm) :: pl)
+  | TCaseElse a e =>
       mkLine LLT_CaseHeader (lvl d) par [k; k + 1; k + 2]
       :: arms_lines par d (k + 3) (li + 1) a (fun _ => [])
            (fun k' li' pl =>
               let le := pexpected par (d + 1) (k' + 1) (li' + 1 + length pl) e in
               let ke := k' + 1 + length (render e) in
-              mkLine LLT_Unknown (lvl d) par [k'] :: pl ++ le
-              ++ mkLine LLT_Unknown (lvl d) par [ke; ke + 1] :: pexpected par d (ke + 2) (li' + 1 + length pl + length le + 1) r)
+              mkLine LLT_Unknown (lvl d) par [k'] :: pl ++ le ++ [mkLine LLT_Unknown (lvl d) par (ke :: sm)])
   end
-(* the child lines of a body (parent p, levels counted from the parent), followed by the empty line the
-   parser leaves behind *)
-with pexpected_body (p : option (nat * nat)) (k li : nat) (semi : option nat) (c : tbody) : list lline :=
-  let sm := match semi with Some e => [e] | None => [] end in
-  match c with
-  | TSimple => [mkLine LLT_Unknown (lvl 1) p (k :: sm); mkLine LLT_Unknown (lvl 1) None []]
-  | TAssign => [mkLine LLT_Assignment (lvl 1) p ([k; k + 1; k + 2] ++ sm); mkLine LLT_Unknown (lvl 1) None []]
-  | TBlock b =>
-      let lb := pexpected p 2 (k + 1) (li + 1) b in
-      let e := k + 1 + length (render b) in
-      mkLine LLT_Unknown (lvl 1) p [k] :: lb ++ [mkLine LLT_Unknown (lvl 1) p (e :: sm); mkLine LLT_Unknown (lvl 1) None []]
+with pexpected (par : option (nat * nat)) (d : Z) (k li : nat) (ss : stmts) : list lline :=
+  match ss with
+  | SNil => []
+  | SCons c r =>
+      let e := k + length (render_stmt c) in                            (* the `;` *)
+      let sl := sexpected par d k li [e] c in
+      sl ++ pexpected par d (e + 1) (li + length sl) r
   end
 (* The arms of a case statement from token k on, the first arm line having index li.  The parser finishes
    the arm line `Identifier :` BEFORE it opens the child line context of the arm's body, so the line that
@@ -167,10 +205,20 @@ with arms_lines (par : option (nat * nat)) (d : Z) (k li : nat) (a : arms) (pend
   match a with
   | ANil => tail k li (pend (li + 1))
   | ACons c a' =>
-      let e := k + 2 + length (render_body c) in                        (* the `;` *)
+      let e := k + 2 + length (render_stmt c) in                        (* the `;` *)
       mkLine LLT_CaseArm (lvl (d + 1)) par [k; k + 1] :: pend (li + 1)
       ++ arms_lines par d (e + 1) (li + 1 + length (pend (li + 1))) a'
-           (fun i => pexpected_body (Some (li, k + 1)) (k + 2) i (Some e) c) tail
+           (fun i => sexpected (Some (li, k + 1)) 1 (k + 2) i [e] c ++ [stray]) tail
+  end
+(* the exception handlers of an except block: a header line `on E : T do`, its body as child lines *)
+with hexpected (par : option (nat * nat)) (d : Z) (k li : nat) (h : handlers) : list lline :=
+  match h with
+  | HNil => []
+  | HCons c r =>
+      let e := k + 5 + length (render_stmt c) in                        (* the `;` *)
+      let sl := mkLine LLT_Unknown (lvl d) par [k; k + 1; k + 2; k + 3; k + 4]
+                :: sexpected (Some (li, k + 4)) 1 (k + 5) (li + 1) [e] c ++ [stray] in
+      sl ++ hexpected par d (e + 1) (li + length sl) r
   end.
 Definition pexpected_prog (ss : stmts) : list lline :=
   let lb := pexpected None 1 1 1 ss in
@@ -189,12 +237,82 @@ Definition finalize (pl : list lline) : list lline :=
       (filter nonempty_line pl).
 Definition expected_prog (ss : stmts) : list lline := finalize (pexpected_prog ss).
 
-(* programs without `if`/`while` (no child lines) *)
-Fixpoint child_free (ss : stmts) : bool :=
+(* programs without `if`/`while`/`case` (no child lines) *)
+Fixpoint child_free_stmt (c : stmt) : bool :=
+  match c with
+  | TSimple | TAssign => true
+  | TBlock b | TRepeat b => child_free b
+  | TTry b c | TTryExcept b c => child_free b && child_free c
+  | _ => false
+  end
+with child_free (ss : stmts) : bool :=
+  match ss with SNil => true | SCons c r => child_free_stmt c && child_free r end.
+
+(* The bodies of if/while statements, case arms and exception handlers as token ranges
+   (parent token, first token, end): the body occupies the tokens first .. end-1, the parent token is the
+   then/else/do/colon in front of it.  A line has a parent iff its first token lies in one of these ranges. *)
+Fixpoint spans_stmt (k : nat) (c : stmt) : list (nat * nat * nat) :=
+  match c with
+  | TSimple | TAssign => []
+  | TBlock b | TRepeat b => spans (k + 1) b
+  | TTry b c | TTryExcept b c => spans (k + 1) b ++ spans (k + 1 + length (render b) + 1) c
+  | TTryOn b h => spans (k + 1) b ++ spans_handlers (k + 1 + length (render b) + 1) h
+  | TIf c | TWhile c => (k + 2, k + 3, k + 3 + length (render_stmt c)) :: spans_stmt (k + 3) c
+  | TIfElse c1 c2 =>
+      let el := k + 3 + length (render_stmt c1) in
+      (k + 2, k + 3, el) :: spans_stmt (k + 3) c1 ++ (el, el + 1, el + 1 + length (render_stmt c2)) :: spans_stmt (el + 1) c2
+  | TCase a => spans_arms (k + 3) a
+  | TCaseElse a e => spans_arms (k + 3) a ++ spans (k + 3 + length (render_arms a) + 1) e
+  end
+with spans (k : nat) (ss : stmts) : list (nat * nat * nat) :=
   match ss with
-  | SNil => true
-  | SSimple r | SAssign r => child_free r
-  | SBlock b r | SRepeat b r => child_free b && child_free r
-  | STry b c r | STryExcept b c r => child_free b && child_free c && child_free r
-  | SIf _ _ | SIfElse _ _ _ | SWhile _ _ | SCase _ _ | SCaseElse _ _ _ => false
+  | SNil => []
+  | SCons c r => spans_stmt k c ++ spans (k + length (render_stmt c) + 1) r
+  end
+with spans_arms (k : nat) (a : arms) : list (nat * nat * nat) :=
+  match a with
+  | ANil => []
+  | ACons c r => (k + 1, k + 2, k + 2 + length (render_stmt c)) :: spans_stmt (k + 2) c ++ spans_arms (k + 2 + length (render_stmt c) + 1) r
+  end
+with spans_handlers (k : nat) (h : handlers) : list (nat * nat * nat) :=
+  match h with
+  | HNil => []
+  | HCons c r => (k + 4, k + 5, k + 5 + length (render_stmt c)) :: spans_stmt (k + 5) c ++ spans_handlers (k + 5 + length (render_stmt c) + 1) r
   end.
+Definition body_spans (ss : stmts) : list (nat * nat * nat) := spans 1 ss.
+Definition in_spans (sp : list (nat * nat * nat)) (f : nat) : bool :=
+  existsb (fun x => let '(_, a, b) := x in (a <=? f) && (f <? b)) sp.
+
+(* ------------------------------------------------------------------ *)
+(* declaration sections in front of the main block:
+     unit  ::= decl* `begin` stmts `end` `.` Eof
+     decl  ::= `var` (Identifier `:` Identifier `;`)*  |  `const` (Identifier `=` Identifier `;`)*
+   every member makes one line of type Declaration, one level deeper than the line of the section keyword *)
+Inductive decl : Set := DVar (n : nat) | DConst (n : nat).
+Fixpoint render_members (m : list RawTokenType) (n : nat) : list RawTokenType :=
+  match n with O => [] | S n' => m ++ render_members m n' end.
+Definition render_decl (dc : decl) : list RawTokenType :=
+  match dc with
+  | DVar n => tVar :: render_members [tI; tColon; tI; tSemi] n
+  | DConst n => tConst :: render_members [tI; tEq; tI; tSemi] n
+  end.
+Fixpoint render_decls (ds : list decl) : list RawTokenType :=
+  match ds with [] => [] | dc :: r => render_decl dc ++ render_decls r end.
+Definition render_unit (ds : list decl) (ss : stmts) : list RawTokenType := render_decls ds ++ render_prog ss.
+Fixpoint member_lines (k n : nat) : list lline :=
+  match n with O => [] | S n' => mkLine LLT_Declaration 1%N None [k; k + 1; k + 2; k + 3] :: member_lines (k + 4) n' end.
+Definition decl_n (dc : decl) : nat := match dc with DVar n | DConst n => n end.
+Fixpoint decl_lines (k : nat) (ds : list decl) : list lline :=
+  match ds with
+  | [] => []
+  | dc :: r => mkLine LLT_Unknown 0%N None [k] :: member_lines (k + 1) (decl_n dc) ++ decl_lines (k + 1 + 4 * decl_n dc) r
+  end.
+(* the main block from token K on, its first line having index LI *)
+Definition main_lines (K LI : nat) (ss : stmts) : list lline :=
+  let lb := pexpected None 1 (K + 1) (LI + 1) ss in
+  let e := K + 1 + length (render ss) in
+  mkLine LLT_Unknown 0%N None [K] :: lb
+  ++ [mkLine LLT_Unknown 0%N None [e; e + 1]; mkLine LLT_Eof 0%N None [e + 2]].
+Definition pexpected_unit (ds : list decl) (ss : stmts) : list lline :=
+  let dl := decl_lines 0 ds in dl ++ main_lines (length (render_decls ds)) (length dl) ss.
+Definition expected_unit (ds : list decl) (ss : stmts) : list lline := finalize (pexpected_unit ds ss).
